@@ -327,7 +327,8 @@ def fit_scipy(
         while improve and not s.success:
             min_nll = s.fun
             maxiter -= s.nit
-            s = minimize(
+            # method "test" is the library's own minimiser, scipy does not know it
+            s = (my_minimize if method == "test" else minimize)(
                 f_g,
                 s.x,
                 method=method,
